@@ -366,6 +366,16 @@ func (r *Run) Finish() int {
 	for _, v := range r.viol {
 		fmt.Printf("  violation[%s] phase=%s %s\n", v.Key, v.Phase, v.Msg)
 	}
+	if len(r.violByKey) > 0 {
+		vk := make([]string, 0, len(r.violByKey))
+		for k := range r.violByKey {
+			vk = append(vk, k)
+		}
+		sort.Strings(vk)
+		for _, k := range vk {
+			fmt.Printf("  class %-60s count=%d\n", k, r.violByKey[k])
+		}
+	}
 	seen := map[string]bool{}
 	for _, v := range r.viol {
 		if seen[v.Key] {
